@@ -71,6 +71,7 @@ def run(ctx):
     x_scenarios.whole_upload_fidelity(ctx, ctx.n(60, 1500))
     x_scenarios.item_put_fidelity(ctx, ctx.n(120, 3000))
     x_scenarios.move_matrix(ctx)
+    x_scenarios.predefined_collections(ctx)
 
 
 def replay(ctx, path):
